@@ -290,9 +290,22 @@ func lex(s string) ([]token, error) {
 	return append(out, token{"eof", ""}), nil
 }
 
+// MaxNesting is the documented bound of the language on the nesting of parentheses and negations
+// (a `not` nests its operand, a `(` nests its contents; operators in a flat chain do not nest).
+const MaxNesting = 1000
+
 type parser struct {
-	t []token
-	i int
+	t     []token
+	i     int
+	depth int
+}
+
+func (p *parser) enter() error {
+	p.depth++
+	if p.depth > MaxNesting {
+		return errors.New("abe: nested more deeply than the language allows")
+	}
+	return nil
 }
 
 func (p *parser) peek() token { return p.t[p.i] }
@@ -349,6 +362,10 @@ func (p *parser) and() (*Node, error) {
 
 func (p *parser) unary() (*Node, error) {
 	if p.peek().kind == "not" {
+		if err := p.enter(); err != nil {
+			return nil, err
+		}
+		defer func() { p.depth-- }()
 		p.next()
 		x, err := p.unary()
 		if err != nil {
@@ -362,6 +379,10 @@ func (p *parser) unary() (*Node, error) {
 func (p *parser) primary() (*Node, error) {
 	switch p.peek().kind {
 	case "(":
+		if err := p.enter(); err != nil {
+			return nil, err
+		}
+		defer func() { p.depth-- }()
 		p.next()
 		x, err := p.or()
 		if err != nil {
